@@ -511,7 +511,8 @@ def check_C14(tier):
     chk = core.Check("C14", tier)
     core.sut()
     if tier == "quick":
-        jobs = [("n3_cyclic_calls1", mprun_consts(3, 1, cyclic=True), {"workers": 16})]
+        jobs = [("n3_cyclic_calls1", mprun_consts(3, 1, cyclic=True), {"workers": 14}),
+                ("n2_cyclic_calls3", mprun_consts(2, 3, cyclic=True), {"workers": 2})]
         variants = [core.SEED % 12]
     else:
         jobs = [("n3_cyclic_calls2", mprun_consts(3, 2, cyclic=True), {"workers": 8}),
